@@ -29,3 +29,21 @@ package structure
 //@   | typeis(r.Pattern, *annotations.HttpRule_Put) ? as(*annotations.HttpRule_Put, r.Pattern).Put :
 //@   | typeis(r.Pattern, *annotations.HttpRule_Delete) ? as(*annotations.HttpRule_Delete, r.Pattern).Delete :
 //@   | typeis(r.Pattern, *annotations.HttpRule_Patch) ? as(*annotations.HttpRule_Patch, r.Pattern).Patch : ""
+
+// ---- naming conventions the reader insists on (C16): what the compiler emits must satisfy these --------
+// A service method's input is <Method>Request; its output <Method>Response or google.api.HttpBody.
+// A topic method's input is <Method>Message and its output google.protobuf.Empty. Anything else is
+// rejected, and what is accepted is recorded under the method's own name.
+//@ func buildMethod
+//@   ensures input: result1 == nil ==> descName(mdInput(method)) == descName(method) + "Request"
+//@   ensures output: result1 == nil ==> descName(mdOutput(method)) == descName(method) + "Response" || descFullName(mdOutput(method)) == "google.api.HttpBody"
+//@ func buildTopicMethod
+//@   requires method != nil
+//@   ensures input: result1 == nil ==> descName(mdInput(method)) == descName(method) + "Message" && descFullName(mdOutput(method)) == "google.protobuf.Empty"
+//@   ensures recorded: result1 == nil ==> result0 != nil && result0.Name == descName(method) && result0.Schema == descName(mdInput(method)) && result0.FullGrpcName == descFullName(method)
+// Services are told apart by suffix: ...Service / ...Sandbox are APIs, ...Topic a topic, ...Events is
+// skipped, and any other name is an error (never silently dropped).
+//@ func (packageSet).addStructure
+//@   assert at buildService#0 api: arg0 == service && (hasSuffix(name, "Service") || hasSuffix(name, "Sandbox"))
+//@   assert at buildTopic#0 topic: arg0 == service && hasSuffix(name, "Topic") && !hasSuffix(name, "Service") && !hasSuffix(name, "Sandbox") && !hasSuffix(name, "Events")
+//@   assert at return#4 other: result0 != nil && !hasSuffix(name, "Service") && !hasSuffix(name, "Sandbox") && !hasSuffix(name, "Events") && !hasSuffix(name, "Topic")
